@@ -13,7 +13,7 @@ EXPLANATION = (
 )
 BOUNDS = {"quick": {"sample slots": "every non-empty subset of {0, 1, 64, 127} (15)", "sample data": "lengths 0..8 (seeded per obligation) x 3 formats x 2 channel modes, every byte symbolic",
                     "envelopes": "point counts 0..4 per envelope (7 envelopes), x u16, y over the envelope's 16-bit window, sustain/loop points 0..255, flags, ctl/gain/velocity u8",
-                    "note map": "all 119 entries symbolic u8", "record fields": "every field at its struct width", "legacy": "pre-envelope records with 0..3 active points, all point bytes symbolic"},
+                    "note map": "119 entries: 34 symbolic (both ends, the 96-entry legacy boundary, 6 seeded), the rest seeded", "record fields": "every field at its struct width", "legacy": "pre-envelope records with 0..3 active points, all point bytes symbolic"},
           "thorough": {"envelopes": "point counts 0..4, 12, 13, 64", "sample data": "all lengths 0..8 for every format/channel combination"}}
 OUTSIDE = ["sample names / instrument names ending in NUL bytes (stored NUL-padded, so trailing NULs are not representable)", "more than 255 envelope points or sustain/loop point indices above 255 (mirrored in 8-bit legacy fields of the record)",
            "sample data longer than 8 bytes", "options (C11)"]
@@ -196,9 +196,11 @@ def envelope_obs(tier, rnd):
 
 def record_obs(tier, rnd):
     obs = []
-    # note map: all 119 entries
-    params = [U8(f"n{i}") for i in range(119)]
-    sets = "\n".join(f"    s.note_samples[keys[{i}]] = n{i}" for i in range(119))
+    # note map: 119 entries; symbolic at the positions around every boundary (start, the 96-entry legacy copy, the end), seeded elsewhere
+    symp = sorted(set(list(range(0, 8)) + list(range(90, 102)) + list(range(111, 119)) + rnd.sample(range(8, 90), 6)))
+    vals = [f"n{i}" if i in symp else str(rnd.randrange(256)) for i in range(119)]
+    params = [U8(f"n{i}") for i in symp]
+    sets = "\n".join(f"    s.note_samples[keys[{i}]] = {vals[i]}" for i in range(119))
     body = f"""
     s = SMP()
     keys = list(s.note_samples.keys())
@@ -206,15 +208,15 @@ def record_obs(tier, rnd):
         return False
 {sets}
     data, t = rt_sampler(s)
-    if list(t.note_samples.values()) != [{', '.join(f'n{i}' for i in range(119))}]:
+    if list(t.note_samples.values()) != [{', '.join(vals)}]:
         return False
     c = rec_of(data, 0)["chdt"]
     if len(c) != 400:
         return False
-    return list(c[0x104:0x104 + 119]) == [{', '.join(f'n{i}' for i in range(119))}] and list(c[0x24:0x24 + 96]) == [{', '.join(f'n{i}' for i in range(96))}] and list(c[0x17b:0x184]) == [0] * 9 and bytes(c[0xfc:0x100]) == b"PMAS"
+    return list(c[0x104:0x104 + 119]) == [{', '.join(vals)}] and list(c[0x24:0x24 + 96]) == [{', '.join(vals[:96])}] and list(c[0x17b:0x184]) == [0] * 9 and bytes(c[0xfc:0x100]) == b"PMAS"
 """
     obs.append(Ob("notemap", build(params, body, setup=SETUP), "all 119 note-to-sample entries survive; the instrument record is 400 bytes with the map at 0x104 (+9 zero bytes), the legacy 96-entry copy at 0x24 and the signature at 0xfc",
-                  group="notemap", shape="Sampler()", symbolic="119 bytes", timeout=400))
+                  group="notemap", shape="Sampler(); 34 map positions symbolic (0-7, 90-101, 111-118, 6 seeded), the rest seeded constants", symbolic="34 map bytes", timeout=400))
     groups = [
         ("vibrato", [("vibrato_attack", U8), ("vibrato_depth", U8), ("vibrato_rate", lambda n: R(n, 0, 63)), ("volume_fadeout", lambda n: R(n, 0, 8192)), ("vibrato_type", lambda n: R(n, 0, 2))],
          "c[0xee] == vibrato_type and c[0xef] == vibrato_attack and c[0xf0] == vibrato_depth and c[0xf1] == vibrato_rate and RF.rd_u16(c, 0xf2) == volume_fadeout"),
